@@ -520,6 +520,32 @@ def run_blockwise(case):
   return R(None, True, (len(exp2), route))
 
 
+# ---------------------------------------------------------------- long inputs
+def gen_long(run):
+  for kinds in (["P", "K", "A", "P", "P", "A"], ["K", "P", "P", "C", "A", "P"], ["P", "A", "A", "P", "A", "A"],
+                ["C", "P", "A", "K", "P", "K"], ["P", "P", "P", "P", "P", "P"]):
+    for route in ("dict", "expr"):
+      for n in (64, 65, 130, run.pick(300, 1000)):
+        yield (kinds, route, n)
+
+
+def run_long(case):
+  """Hundreds of samples with periodic / constant coefficient streams: values and one read per output."""
+  kinds, route, n = case
+  x = [Q(v) for v in [((7 * i * i + 3 * i) % 11) - 5 for i in range(n)]]
+  num, den = ref_polys(kinds, n + 2)
+  exp = tv_apply(num, den, [Sym.lift(v) for v in x])
+  sources = []
+  try:
+    filt = build_filter(kinds, route, sources)
+  except Exception as exc:
+    return bad("tv-long:build:" + type(exc).__name__, "building the filter raised", None, str(exc)[:200], True)
+  v = check_run(filt, sources, exp, x, "tv-long", True)
+  if v is not None:
+    return v
+  return R(None, True, (n > 200, route))
+
+
 KINDS = OrderedDict([
   ("shapes", Kind(gen_shapes, run_shape, chunk=300,
                   rule="coefficient kind placements x construction route; non-trivial: >=1 Stream coefficient")),
@@ -531,4 +557,5 @@ KINDS = OrderedDict([
   ("algebra", Kind(gen_algebra, run_algebra, chunk=8, rule="(op, f, g) over the pool of stream-bearing filters")),
   ("conststream", Kind(gen_conststream, run_conststream, chunk=60,
                        rule="every subset of coefficients replaced by constant streams")),
+  ("long", Kind(gen_long, run_long, chunk=1, timeout=300, rule="periodic / constant coefficient streams over 64, 65, 130, 300 (1000) samples")),
 ])
